@@ -175,7 +175,76 @@ func beforePATCase(c *mon.Ctx, idx int64, r *rand.Rand) {
 	}
 }
 
+// hoardCase: hours of stream pass and some PID never starts a unit — null packets whose counter runs and whose payload varies (the
+// standard leaves both open), or a private PID nobody announced: tens of thousands of its packets sit in the pool. Whatever the
+// library does about them, the other PIDs deliver what they deliver without them, wherever their packets fall among the hoard.
+func hoardCase(c *mon.Ctx, idx int64, r *rand.Rand) {
+	pid := uint16(0x100 + r.IntN(0x1000))
+	hoardPID := []uint16{0x1fff, 0x1ffe, 0x30}[idx%3]
+	var video []*astits.Packet
+	for u := 0; u < 2+r.IntN(3); u++ {
+		un := gen.NewPESUnit(r, pid, u+1, gen.PESOpts{DataLen: 20 + r.IntN(900), Unbounded: u%2 == 0, WithPTS: true})
+		un.PlanChunks(gen.RandomChunks(r, len(un.Payload), 0, 0, false))
+		off := 0
+		for k, pl := range un.Plan {
+			video = append(video, gen.BuildPacket(pid, uint8(len(video)), k == 0, un.Payload[off:off+pl.N], nil, false))
+			off += pl.N
+		}
+	}
+	vb := encodeAll(video)
+	base, brun := perPIDOut(vb)
+	if brun.Panic != "" || len(base[pid]) == 0 {
+		return
+	}
+	n := []int{32768, 32766, 33000, 40000, 65536, 70000}[int(idx/3)%6]
+	hoard := func(k int) []byte {
+		b := make([]byte, 188)
+		b[0], b[1], b[2], b[3] = 0x47, byte(hoardPID>>8), byte(hoardPID), 0x10|byte(k&15)
+		for j := 4; j < 188; j++ {
+			b[j] = byte(k>>uint(j%3*8)) ^ byte(j)
+		}
+		return b
+	}
+	// where the hoard falls: all of it before, all but one packet before the first video packet and one right after it, or spread
+	split := []int{n, n - 2, n / 2}[r.IntN(3)]
+	var stream []byte
+	k := 0
+	for ; k < split; k++ {
+		stream = append(stream, hoard(k)...)
+	}
+	stream = append(stream, vb[:188]...)
+	for ; k < n; k++ {
+		stream = append(stream, hoard(k)...)
+		if k == split {
+			stream = append(stream, vb[188:376]...)
+		}
+	}
+	if split < n {
+		stream = append(stream, vb[376:]...)
+	} else {
+		stream = append(stream, vb[188:]...)
+	}
+	for q := 0; q < 17; q++ {
+		stream = append(stream, hoard(n+q)...)
+	}
+	got, run := perPIDOut(stream)
+	c.Count("streams_with_tens_of_thousands_of_packets_held_on_one_pid")
+	if run.Panic != "" {
+		c.Violate("C07/panic", "hoard", idx, run.Panic, nil)
+		return
+	}
+	if d := comparePerPID(map[uint16][]*astits.DemuxerData{pid: got[pid]}, map[uint16][]*astits.DemuxerData{pid: base[pid]}, nil); d != "" {
+		c.Violate("C07/inserted-packet-changes-output:hoard", "hoard", idx, fmt.Sprintf("%d packets of pid %#x without a unit start around the packets of pid %#x: %s", n, hoardPID, pid, d), map[string]any{"video": mon.Hex(vb, 800)})
+	}
+}
+
 func runC07(c *mon.Ctx) {
+	nh := c.Pick(6, 72)
+	for i := int64(0); i < nh; i++ {
+		if c.Mine("hoard", i) {
+			hoardCase(c, i, c.Rng("hoard", i))
+		}
+	}
 	nb := c.Pick(300, 20000)
 	for i := int64(0); i < nb; i++ {
 		if c.Mine("before-pat", i) {
